@@ -72,3 +72,49 @@ pub open spec fn in_sel(t: TxIn, c: MatchCriteria) -> bool {
 pub open spec fn matching_indices(n: int, p: spec_fn(int) -> bool) -> Seq<usize> decreases n {
     if n <= 0 { Seq::empty() } else if p(n - 1) { matching_indices(n - 1, p).push((n - 1) as usize) } else { matching_indices(n - 1, p) }
 }
+
+// ---- template text grammar (one whitespace-free word), written from the documented grammar:
+// numeric aliases 0..16, opcode names (OP_SIG / OP_PUBKEY / OP_PUBKEYHASH / OP_DATA are the fuzzy tokens),
+// OP_DATA<op><n> with <op> recognised in the order >=, <=, =, >, <, otherwise even-length hex data ----
+pub enum TokAbs { Op(OpCodes), Sig, Pk, Pkh, Any, Data(usize, DataLengthConstraints), Push(Seq<u8>), PushData(OpCodes, Seq<u8>) }
+pub open spec fn tok_abs(t: MatchToken) -> TokAbs {
+    match t {
+        MatchToken::OpCode(c) => TokAbs::Op(c), MatchToken::Push(d) => TokAbs::Push(d@), MatchToken::PushData(o, d) => TokAbs::PushData(o, d@),
+        MatchToken::AnyData => TokAbs::Any, MatchToken::Data(n, c) => TokAbs::Data(n, c), MatchToken::Signature => TokAbs::Sig,
+        MatchToken::PublicKey => TokAbs::Pk, MatchToken::PublicKeyHash => TokAbs::Pkh,
+    }
+}
+pub open spec fn length_operator(t: Seq<char>) -> Option<(Seq<char>, DataLengthConstraints)> {
+    if str_split_once(t, seq!['>', '=']) is Some { Some((str_split_once(t, seq!['>', '='])->Some_0.1, DataLengthConstraints::GreaterThanOrEquals)) }
+    else if str_split_once(t, seq!['<', '=']) is Some { Some((str_split_once(t, seq!['<', '='])->Some_0.1, DataLengthConstraints::LessThanOrEquals)) }
+    else if str_split_once(t, seq!['=']) is Some { Some((str_split_once(t, seq!['='])->Some_0.1, DataLengthConstraints::Equals)) }
+    else if str_split_once(t, seq!['>']) is Some { Some((str_split_once(t, seq!['>'])->Some_0.1, DataLengthConstraints::GreaterThan)) }
+    else if str_split_once(t, seq!['<']) is Some { Some((str_split_once(t, seq!['<'])->Some_0.1, DataLengthConstraints::LessThan)) }
+    else { None }
+}
+pub open spec fn hex_token(t: Seq<char>) -> Option<TokAbs> {
+    match hex_dec(t) {
+        Some(b) => Some(if b.len() <= 0x4b { TokAbs::Push(b) } else if b.len() <= 0xff { TokAbs::PushData(OpCodes::OP_PUSHDATA1, b) }
+                        else if b.len() <= 0xffff { TokAbs::PushData(OpCodes::OP_PUSHDATA2, b) } else { TokAbs::PushData(OpCodes::OP_PUSHDATA4, b) }),
+        None => None,
+    }
+}
+// None = the word is not a template token (error)
+pub open spec fn template_token(t: Seq<char>, byte_len: int) -> Option<TokAbs> {
+    if byte_len < 3 && str_parse_u8(t) == Some(0u8) { Some(TokAbs::Op(OpCodes::OP_0)) }
+    else if byte_len < 3 && str_parse_u8(t) is Some && 1 <= str_parse_u8(t)->Some_0 <= 16 { Some(TokAbs::Op(small_num_opcode(str_parse_u8(t)->Some_0))) }
+    else if opcode_of_name(t) is Some {
+        let c = opcode_of_name(t)->Some_0;
+        Some(if c is OP_SIG { TokAbs::Sig } else if c is OP_PUBKEY { TokAbs::Pk } else if c is OP_PUBKEYHASH { TokAbs::Pkh } else if c is OP_DATA { TokAbs::Any } else { TokAbs::Op(c) })
+    }
+    else if str_starts_with(t, op_name(OpCodes::OP_DATA)) && length_operator(t) is Some {
+        match str_parse_usize(length_operator(t)->Some_0.0) { Some(n) => Some(TokAbs::Data(n, length_operator(t)->Some_0.1)), None => None }
+    }
+    else { hex_token(t) }
+}
+// OP_1 .. OP_16 are the opcodes 81 .. 96
+pub open spec fn small_num_opcode(v: u8) -> OpCodes {
+    if v == 1 { OpCodes::OP_1 } else if v == 2 { OpCodes::OP_2 } else if v == 3 { OpCodes::OP_3 } else if v == 4 { OpCodes::OP_4 } else if v == 5 { OpCodes::OP_5 }
+    else if v == 6 { OpCodes::OP_6 } else if v == 7 { OpCodes::OP_7 } else if v == 8 { OpCodes::OP_8 } else if v == 9 { OpCodes::OP_9 } else if v == 10 { OpCodes::OP_10 }
+    else if v == 11 { OpCodes::OP_11 } else if v == 12 { OpCodes::OP_12 } else if v == 13 { OpCodes::OP_13 } else if v == 14 { OpCodes::OP_14 } else if v == 15 { OpCodes::OP_15 } else { OpCodes::OP_16 }
+}
